@@ -217,11 +217,12 @@ Definition inv_int (s : state) : Prop :=
   usage_exact_int (ni_usage (st_info s)) (st_live s) /\ Forall wf_wres (st_live s).
 
 (* oracle data carried by an operation is well formed (Go maps) *)
-Definition op_wf (o : op) : Prop :=
+Fixpoint op_wf (o : op) : Prop :=
   match o with
   | OpAlloc ws => Forall wf_wres ws
   | OpRealloc _ _ new => wf_wres new
   | OpRollbackRealloc _ origin => wf_wres origin
+  | OpFailedCommit inner => op_wf inner
   | _ => True
   end.
 
@@ -276,11 +277,141 @@ Proof. reflexivity. Qed.
 Lemma zs1 f (w : wres) : zs f [w] = f w.
 Proof. unfold zs. simpl. lia. Qed.
 
-(* every step preserves the invariant, whatever the oracles returned *)
-Theorem step_inv_int s o : op_wf o -> inv_int s -> inv_int (sr_state (step s o)).
+(* ---------- validity of the stored record ---------- *)
+Lemma upd_notin {V} (m : smap V) k v : ~ In k (keys m) -> upd m k v = m ++ [(k, v)].
 Proof.
-  intros WF [[Hc [Hn Hm]] Hl].
-  destruct o as [|ws|idxs|i|i req new|i origin]; simpl in *.
+  unfold keys. induction m as [|[k0 v0] t IH]; simpl; intro H; [reflexivity|].
+  destruct (String.eqb k k0) eqn:E.
+  - apply String.eqb_eq in E. subst. tauto.
+  - rewrite IH by tauto. reflexivity.
+Qed.
+
+Lemma cpumap_add_app m : forall acc, NoDup (keys (acc ++ m)) -> cpumap_add acc m = acc ++ m.
+Proof.
+  unfold cpumap_add. induction m as [|[k v] t IH]; intros acc ND; simpl; [now rewrite app_nil_r|].
+  assert (NI : ~ In k (keys acc)).
+  { unfold keys in *. rewrite map_app in ND. apply NoDup_remove_2 in ND. intro H. apply ND. apply in_or_app. auto. }
+  rewrite (lookup_notin acc k NI), (upd_notin acc k (0 + v) NI). simpl.
+  rewrite IH; rewrite <- app_assoc; [reflexivity|exact ND].
+Qed.
+
+Lemma cpumap_add_nil m : NoDup (keys m) -> cpumap_add [] m = m.
+Proof. intro H. apply (cpumap_add_app m []). exact H. Qed.
+
+(* Validate only reads the capacity and the two maps of the usage *)
+Lemma validate_usage_congr cap u u' :
+  nr_cpumap u = nr_cpumap u' -> nr_numamem u = nr_numamem u' ->
+  (exists i, validate (mkNI cap u) = inr i) -> validate (mkNI cap u') = inr (mkNI cap u').
+Proof.
+  intros E1 E2 [i V]. unfold validate in *. simpl in *. rewrite <- E1.
+  destruct (nr_cpumap cap); [discriminate|].
+  destruct (negb _); [discriminate|].
+  destruct (nr_numa cap); [reflexivity|].
+  destruct (numa_cpu_fault cap); [discriminate|].
+  unfold numa_mem_fault2 in *. simpl in *. rewrite <- E2.
+  destruct (_ || _); [discriminate|reflexivity].
+Qed.
+
+Lemma add_all_nodup_c ws : forall u, NoDup (keys (nr_cpumap u)) -> NoDup (keys (nr_cpumap (add_all u ws))).
+Proof.
+  unfold add_all. induction ws as [|w t IH]; intros u H; simpl; [exact H|].
+  apply IH. simpl. apply cpumap_add_nodup. exact H.
+Qed.
+Lemma sub_all_nodup_c ws : forall u, NoDup (keys (nr_cpumap u)) -> NoDup (keys (nr_cpumap (sub_all u ws))).
+Proof.
+  unfold sub_all. induction ws as [|w t IH]; intros u H; simpl; [exact H|].
+  apply IH. simpl. apply cpumap_sub_nodup. exact H.
+Qed.
+Lemma add_all_nodup_n ws : forall u, NoDup (keys (nr_numamem u)) -> NoDup (keys (nr_numamem (add_all u ws))).
+Proof.
+  unfold add_all. induction ws as [|w t IH]; intros u H; simpl; [exact H|].
+  apply IH. simpl. apply cpumap_add_nodup. exact H.
+Qed.
+Lemma sub_all_nodup_n ws : forall u, NoDup (keys (nr_numamem u)) -> NoDup (keys (nr_numamem (sub_all u ws))).
+Proof.
+  unfold sub_all. induction ws as [|w t IH]; intros u H; simpl; [exact H|].
+  apply IH. simpl. apply cpumap_sub_nodup. exact H.
+Qed.
+
+(* the stored record passes Validate and its usage maps are Go maps *)
+Definition inv_valid (s : state) : Prop :=
+  validate (st_info s) = inr (st_info s) /\
+  NoDup (keys (nr_cpumap (ni_usage (st_info s)))) /\ NoDup (keys (nr_numamem (ni_usage (st_info s)))).
+
+Lemma commit_valid s ws incr live' : inv_valid s -> inv_valid (sr_state (commit s ws incr live')).
+Proof.
+  intros (V & NC & NN). unfold commit, set_node_resource_usage.
+  destruct (validate (mkNI (ni_cap (st_info s)) (calculate_node_resource None (ni_usage (st_info s)) ws true incr))) as [e|i] eqn:V';
+    simpl; [split; [exact V|split; assumption]|].
+  pose proof (validate_inr _ _ V') as E. subst i. unfold inv_valid. simpl. split; [exact V'|].
+  unfold calculate_node_resource. destruct incr.
+  - split; [apply (add_all_nodup_c ws)|apply (add_all_nodup_n ws)]; assumption.
+  - split; [apply (sub_all_nodup_c ws)|apply (sub_all_nodup_n ws)]; assumption.
+Qed.
+
+(* the capacity is never touched *)
+Lemma step_cap s o : ni_cap (st_info (sr_state (step s o))) = ni_cap (st_info s).
+Proof.
+  revert s. induction o as [|ws|idxs|i|i req new|i origin|inner IH]; intro s; simpl; try reflexivity; try apply commit_cap.
+  - destruct (nth_error _ _); simpl; [apply commit_cap|reflexivity].
+  - destruct (nth_error _ _); simpl; [apply commit_cap|reflexivity].
+  - destruct (sr_err (step s inner)); simpl; [reflexivity|].
+    unfold set_node_resource_usage. destruct (validate _) as [e|i] eqn:V; simpl; [apply IH|].
+    apply validate_inr in V. subst i. simpl. apply IH.
+Qed.
+
+(* the write-back of cobalt's rollback: usage := before (absolute write) *)
+Definition written_back (u : node_resource) : node_resource := nr_add nr_empty u.
+
+Lemma written_back_maps u :
+  NoDup (keys (nr_cpumap u)) -> NoDup (keys (nr_numamem u)) ->
+  nr_cpumap (written_back u) = nr_cpumap u /\ nr_numamem (written_back u) = nr_numamem u /\
+  nr_mem (written_back u) = nr_mem u.
+Proof.
+  intros NC NN. unfold written_back, nr_add, nr_empty. simpl.
+  rewrite !cpumap_add_nil by assumption. auto.
+Qed.
+
+(* from a valid state the rollback of a failed commit is always accepted *)
+Lemma failed_commit_state s inner : inv_valid s ->
+  let r := step s (OpFailedCommit inner) in
+  sr_err r = true /\ st_live (sr_state r) = st_live s /\
+  (st_info (sr_state r) = st_info s \/
+   st_info (sr_state r) = mkNI (ni_cap (st_info s)) (written_back (ni_usage (st_info s)))).
+Proof.
+  intros (V & NC & NN). simpl.
+  destruct (sr_err (step s inner)) eqn:E; simpl; [auto|].
+  unfold set_node_resource_usage, calculate_node_resource. cbn [negb].
+  fold (written_back (ni_usage (st_info s))).
+  destruct (written_back_maps _ NC NN) as (M1 & M2 & _).
+  rewrite step_cap.
+  rewrite (validate_usage_congr (ni_cap (st_info s)) (ni_usage (st_info s)) (written_back (ni_usage (st_info s)))); simpl; auto.
+  exists (st_info s). destruct (st_info s); exact V.
+Qed.
+
+Lemma step_valid o : forall s, inv_valid s -> inv_valid (sr_state (step s o)).
+Proof.
+  induction o as [|ws|idxs|i|i req new|i origin|inner IH]; intros s IV; simpl; try exact IV; try (apply commit_valid; exact IV).
+  - destruct (nth_error _ _); simpl; [apply commit_valid|]; exact IV.
+  - destruct (nth_error _ _); simpl; [apply commit_valid|]; exact IV.
+  - destruct (failed_commit_state s inner IV) as (_ & _ & [E|E]); simpl in E; unfold inv_valid; rewrite E; [exact IV|].
+    destruct IV as (V & NC & NN). destruct (written_back_maps _ NC NN) as (M1 & M2 & _).
+    cbn [st_info ni_usage ni_cap]. rewrite M1, M2. split; [|split; assumption].
+    apply (validate_usage_congr (ni_cap (st_info s)) (ni_usage (st_info s))); auto.
+    exists (st_info s). destruct (st_info s); exact V.
+Qed.
+
+(* every step preserves the invariant, whatever the oracles returned *)
+Theorem step_inv_int s o : op_wf o -> inv_valid s -> inv_int s -> inv_int (sr_state (step s o)).
+Proof.
+  intros WF IV [[Hc [Hn Hm]] Hl].
+  destruct o as [|ws|idxs|i|i req new|i origin|inner].
+  7: { (* a commit that failed in another plugin: usage written back, live set untouched *)
+       destruct (failed_commit_state s inner IV) as (_ & L & [E|E]); unfold inv_int; rewrite L, E.
+       - split; [split; [|split]|]; assumption.
+       - destruct IV as (_ & NC & NN). destruct (written_back_maps _ NC NN) as (M1 & M2 & M3).
+         cbn [st_info ni_usage ni_cap]. unfold usage_exact_int. rewrite M1, M2, M3. split; [split; [|split]|]; assumption. }
+  all: simpl in *.
   - split; [split; [|split]|]; assumption.
   - (* alloc *)
     destruct (sr_err (commit s ws true (st_live s ++ ws))) eqn:E.
@@ -344,27 +475,22 @@ Definition run (s : state) (h : list op) : state := fold_left (fun s o => sr_sta
 Definition usage_zero (u : node_resource) : Prop :=
   (forall k, lookup 0 (nr_cpumap u) k = 0) /\ (forall k, lookup 0 (nr_numamem u) k = 0) /\ nr_mem u = 0.
 
-Theorem history_inv_int : forall h s, Forall op_wf h -> inv_int s -> inv_int (run s h).
+Theorem history_inv_int : forall h s, Forall op_wf h -> inv_valid s -> inv_int s ->
+  inv_int (run s h) /\ inv_valid (run s h).
 Proof.
-  unfold run. induction h as [|o t IH]; intros s WF I; simpl; [exact I|].
-  inversion WF; subst. apply IH; [assumption|]. apply step_inv_int; assumption.
+  unfold run. induction h as [|o t IH]; intros s WF IV I; simpl; [split; assumption|].
+  inversion WF; subst. apply IH; [assumption|apply step_valid; exact IV|]. apply step_inv_int; assumption.
 Qed.
 
+(* a valid empty node: the record passes Validate, its usage maps are Go maps
+   and every usage entry is zero (what AddNode leaves) *)
 Theorem exact_int_all_histories info h :
-  usage_zero (ni_usage info) -> Forall op_wf h ->
+  inv_valid (mkState info []) -> usage_zero (ni_usage info) -> Forall op_wf h ->
   usage_exact_int (ni_usage (st_info (run (mkState info []) h))) (st_live (run (mkState info []) h)).
 Proof.
-  intros (Zc & Zn & Zm) WF.
-  apply (history_inv_int h (mkState info [])); [exact WF|].
+  intros IV (Zc & Zn & Zm) WF.
+  apply (history_inv_int h (mkState info [])); [exact WF|exact IV|].
   split; [|constructor]. split; [|split]; simpl; auto.
-Qed.
-
-(* the capacity is never touched *)
-Lemma step_cap s o : ni_cap (st_info (sr_state (step s o))) = ni_cap (st_info s).
-Proof.
-  destruct o as [|ws|idxs|i|i req new|i origin]; simpl; try reflexivity; try apply commit_cap.
-  - destruct (nth_error _ _); simpl; [apply commit_cap|reflexivity].
-  - destruct (nth_error _ _); simpl; [apply commit_cap|reflexivity].
 Qed.
 
 (* ---------- rollback restores the usage (integer components) ---------- *)
